@@ -38,6 +38,7 @@ def entry_rof(ent):
 
 
 class GetNextTasks(Unit):
+    bounded = True
     name = "C.get_next_tasks"
     functions = [
         "orquesta.conducting.WorkflowConductor.get_next_tasks",
